@@ -341,5 +341,6 @@ func runC17(r *run) {
 	// routing of severities registered for the error device: several of them, and loggers that exist already
 	customErrorDevices(r.violate)
 	lateErrorDeviceLevels(r.violate)
+	levelOffsetTitles(r.violate)
 	slog.VerifResetGlobals()
 }
